@@ -556,6 +556,10 @@ class Id(rigid.Id, Diagram):
 
 class Sum(monoidal.Sum, Diagram):
     """ Sums of tensor diagrams. """
+    @staticmethod
+    def upgrade(old):
+        return Sum(old.terms, old.dom, old.cod)
+
     def eval(self, contractor=None):
         return sum(term.eval(contractor=contractor) for term in self.terms)
 
